@@ -310,6 +310,10 @@ func (m *Machine) asSort(env *Env, c CV, s Sort) Term {
 		m.everr("sort mismatch: %s has sort %s, want %s", v.S, v.Sort, s)
 	case *SliceV, *StructV:
 		return m.packTerm(env.cur, v, s)
+	case *PtrV:
+		if s == SBV64 { // an address (unsafe.Pointer)
+			return m.mapKeyTerm(env.cur, v, SBV64)
+		}
 	}
 	m.everr("cannot pass %T as %s", c.V, s)
 	return Term{}
